@@ -161,7 +161,7 @@ func (obj *SparseInt16Vector) APPEND(w *SparseInt16Vector) *SparseInt16Vector {
   return r
 }
 func (obj *SparseInt16Vector) ToSparseInt16Matrix(n, m int) *SparseInt16Matrix {
-  if n*m != obj.n {
+  if n < 0 || m < 0 || n*m != obj.n {
     panic("Matrix dimension does not fit input vector!")
   }
   v := NullSparseInt16Vector(obj.n)
